@@ -145,6 +145,9 @@ def run(ctx: Ctx, tier: str) -> Result:
     # ---- R3
     from . import c01_taint
     c01_taint.check(ctx, res, [e for e, _ in entries.values()])
+    from .common import borrow
+    borrow(ctx, res, tier, "c15", ("C15.THREAD",), "C01.R4", "the handler's per-thread state lives in a threading.local of its own (no thread registry, context or identity table the "
+           "program can see or inherit)")
     return res
 
 
